@@ -4189,6 +4189,20 @@ BuildNode* BuildSystem::lookupNode(StringRef name) {
 bool llbuild::buildsystem::pathIsPrefixedByPath(std::string path,
                                                 std::string prefixPath) {
   std::string pathSeparators = llbuild::basic::sys::getPathSeparators();
+  // Repeated separators are not significant ("/foo//bar" is "/foo/bar").
+  auto collapseSeparators = [&pathSeparators](std::string& s) {
+    std::string result;
+    for (char c: s) {
+      if (!result.empty() &&
+          pathSeparators.find(c) != std::string::npos &&
+          pathSeparators.find(result.back()) != std::string::npos)
+        continue;
+      result.push_back(c);
+    }
+    s = result;
+  };
+  collapseSeparators(path);
+  collapseSeparators(prefixPath);
   // A trailing separator on the prefix is not significant ("/foo/" covers
   // "/foo/bar" just like "/foo" does, and "/" covers every absolute path).
   while (!prefixPath.empty() &&
